@@ -17,17 +17,21 @@ NL = 2
 PALETTE = ['000000', 'ff0000', '00ff00', '0000ff', 'ffffff']
 KINDS = ('played', 'looped', 'completed', 'stopped')
 SLOT_KEYS = ('durs', 'lt', 'col', 'coil', 'sp', 'loops', 'start', 'sync', 'manual', 'prio', 'key', 'blockq',
-             'pool', 'via', 'form', 'tok')
+             'pool', 'via', 'form', 'tok', 'share')
 
 
 def S(durs, lt=None, col=None, coil=None, sp=(1, 1), loops=0, start=1, sync=0, manual=False, prio=1, key='a',
-      blockq=False, pool=False, via='player', form='d', tok=False):
-    """One show slot: step durations in units (-1: hold), light (0: none) / colour / coil (1: enable) per step."""
+      blockq=False, pool=False, via='player', form='d', tok=False, share=0):
+    """One show slot: step durations in units (-1: hold), light (0: none) / colour / coil (1: enable) per step.
+
+    tok: lights, colours and the step events of the show file are tokens filled in by the play request;
+    share=n: the slot plays the show file of slot n (with its own token values).
+    """
     n = len(durs)
     return dict(durs=list(durs), lt=list(lt if lt is not None else [1] * n),
                 col=list(col if col is not None else [(i % 4) + 1 for i in range(n)]),
                 coil=list(coil if coil is not None else [0] * n), sp=list(sp), loops=loops, start=start, sync=sync,
-                manual=manual, prio=prio, key=key, blockq=blockq, pool=pool, via=via, form=form, tok=tok)
+                manual=manual, prio=prio, key=key, blockq=blockq, pool=pool, via=via, form=form, tok=tok, share=share)
 
 
 def CFG(i, unit, *slots, fade=0):
@@ -62,6 +66,9 @@ TABLE = [
     # --- a light with a default fade: fade-in of steps, fade-out entries left by the stop
     CFG(18, 100, S([2, 3], lt=[2, 2], loops=1), fade=2),
     CFG(19, 100, S([3, 1], lt=[2, 1], loops=-1, prio=1, key='a'), S([2, 2], lt=[2, 2], col=[3, 4], loops=0, prio=6, key='b'), fade=1),
+    # --- the same show file played twice with different token values (per-token-set step cache)
+    CFG(21, 100, S([1, 2], lt=[1, 2], col=[1, 2], loops=-1, prio=1, key='a', tok=True),
+        S([1, 2], lt=[2, 1], col=[3, 4], loops=1, prio=3, key='b', tok=True, share=1, via='direct')),
     # --- two shows holding the same coil
     CFG(20, 100, S([1, 2], coil=[1, 0], loops=-1, prio=1, key='a'), S([2, 1], lt=[2, 2], coil=[0, 1], loops=0, prio=2, key='b')),
 ]
@@ -72,23 +79,26 @@ def cfg_rec(c):
     return {'id': c['id'], 'fade': c['fade'], 'sh': [{k: s[k] for k in SLOT_KEYS} for s in c['sh']]}
 
 
-def show_name(cid, sh):
-    return 's_%d_%d' % (cid, sh)
+def show_name(cid, sh, sc=None):
+    return 's_%d_%d' % (cid, (sc or {}).get('share') or sh)
 
 
 def play_target(cid, sh, sc):
-    return ('p_%d_%d' if sc['pool'] else 's_%d_%d') % (cid, sh)
+    return 'p_%d_%d' % (cid, sh) if sc['pool'] else show_name(cid, sh, sc)
 
 
 def key_name(cid, sc):
     return 'k_%d_%s' % (cid, sc['key'])
 
 
-def tokens(sc):
+def tokens(sc, sh):
     if not sc['tok']:
         return {}
-    t = {'lt%d' % i: 'l%d' % i for i in sc['lt'] if i}
-    t.update({'c%d' % c: PALETTE[c] for i, c in zip(sc['lt'], sc['col']) if i})
+    t = {'sid': str(sh)}
+    for k, (i, c) in enumerate(zip(sc['lt'], sc['col']), 1):
+        if i:
+            t['l%d' % k] = 'l%d' % i
+            t['c%d' % k] = PALETTE[c]
     return t
 
 
@@ -111,12 +121,12 @@ def show_yaml(cid, sh, sc, unit):
         else:
             L.append('- time: %s' % ('"+%s"' % _ms(sc['durs'][k - 2], unit) if k > 1 else '0'))
         cum += max(d, 0)
-        L.append('  events: vs_%d_%d_step_%d' % (cid, sh, k))
+        L.append('  events: vs_%d_%s_step_%d' % (cid, '(sid)' if sc['tok'] else str(sh), k))
         if sc['lt'][k - 1]:
             lt, col = sc['lt'][k - 1], sc['col'][k - 1]
             L.append('  lights:')
             if sc['tok']:
-                L.append('    (lt%d): (c%d)' % (lt, col))
+                L.append('    (l%d): (c%d)' % (k, k))
             else:
                 L.append('    l%d: "%s"' % (lt, PALETTE[col]))
         if sc['coil'][k - 1] == 1:
@@ -141,10 +151,11 @@ def write_machine(scratch):
         cid, unit = c['id'], c['unit']
         keys = set()
         for sh, sc in enumerate(c['sh'], 1):
-            with open('%s/shows/%s.yaml' % (d, show_name(cid, sh)), 'w') as f:
-                f.write(show_yaml(cid, sh, sc, unit))
+            if not sc['share']:
+                with open('%s/shows/%s.yaml' % (d, show_name(cid, sh)), 'w') as f:
+                    f.write(show_yaml(cid, sh, sc, unit))
             if sc['pool']:
-                pools += ['  p_%d_%d:' % (cid, sh), '    shows: %s' % show_name(cid, sh), '    type: sequence']
+                pools += ['  p_%d_%d:' % (cid, sh), '    shows: %s' % show_name(cid, sh, sc), '    type: sequence']
             sp = sc['sp'][0] / sc['sp'][1]
             player += ['  vs_play_%d_%d:' % (cid, sh), '    %s:' % play_target(cid, sh, sc),
                        '      key: %s' % key_name(cid, sc), '      priority: %d' % sc['prio'], '      speed: %r' % sp,
@@ -152,7 +163,7 @@ def write_machine(scratch):
                        '      sync_ms: %d' % (sc['sync'] * unit),
                        '      manual_advance: %s' % ('true' if sc['manual'] else 'false'),
                        '      block_queue: %s' % ('true' if sc['blockq'] else 'false')]
-            tk = tokens(sc)
+            tk = tokens(sc, sh)
             if tk:
                 player.append('      show_tokens:')
                 player += ['        %s: "%s"' % kv for kv in sorted(tk.items())]
@@ -216,6 +227,8 @@ _H = {}
 
 
 def _machine(mdir):
+    if _H.pop('dirty', False) and 'h' in _H:
+        harness.shutdown(_H.pop('h'))
     if 'h' not in _H:
         h = harness.boot(None, machine_dir=mdir)
         _H['h'] = h
@@ -283,12 +296,14 @@ def _exec_all(mdir, cid, sched):
         alone = all(c['sh'][x]['key'] != c['sh'][sh - 1]['key'] for x in range(nsl) if x != sh - 1)
         if alone:
             rl, _ = _exec(mdir, cid, eff, sh, False)
-            refs.append([(x['lg'], x['co']) for x in rl])
+            refs.append([(x['lg'], x['co']) for x in rl if x['op'] != 'crash'])
         else:
-            refs.append([(x['lg'], x['co']) for x in lines])     # not compared (see Alone in ShowsTrace)
+            refs.append([(x['lg'], x['co']) for x in lines if x['op'] != 'crash'])     # not compared (see Alone in ShowsTrace)
     for i, ln in enumerate(lines):
-        ln['ref'] = [refs[s][i][0] for s in range(nsl)]
-        ln['refco'] = [refs[s][i][1] for s in range(nsl)]
+        if ln['op'] == 'crash':
+            break
+        ln['ref'] = [refs[s][i][0] if i < len(refs[s]) else [-9] * NL for s in range(nsl)]
+        ln['refco'] = [refs[s][i][1] if i < len(refs[s]) else False for s in range(nsl)]
     return {'cfg': cfg_rec(c), 'ev': lines, '_sched': eff, '_notes': _H.get('notes', [])}
 
 
@@ -399,7 +414,7 @@ def _exec(mdir, cid, sched, skip, dynamic):
             else:
                 rs[sh] = m.shows[play_target(cid, sh, sc)].play(
                     priority=sc['prio'], speed=sc['sp'][0] / sc['sp'][1], start_step=sc['start'], loops=sc['loops'],
-                    sync_ms=sc['sync'] * c['unit'], manual_advance=sc['manual'], show_tokens=tokens(sc),
+                    sync_ms=sc['sync'] * c['unit'], manual_advance=sc['manual'], show_tokens=tokens(sc, sh),
                     **{'events_when_' + k: ['vs_%d_%d_%s' % (cid, sh, k)] for k in KINDS})
             if rs[sh] is not None:
                 _H['rs'].append(rs[sh])
@@ -418,22 +433,29 @@ def _exec(mdir, cid, sched, skip, dynamic):
         elif op == 'update':
             r.update(speed=a['sp'][0] / a['sp'][1])
         elif op == 'late':
-            pp = pending(r)
-            if len(pp) != 1:
-                raise RuntimeError('late: %d pending timers for slot %d' % (len(pp), sh))
-            pp[0].set_late(a['d'] * U)
+            pp = pending(r)      # (more than one only after the double arming reported as resume-while-running)
+            if pp:
+                pp[-1].set_late(a['d'] * U)
         else:
             raise ValueError(op)
 
     lines, eff = [], []
 
     def run_one(a):
+        if lines and lines[-1]['op'] == 'crash':
+            return
         eff.append(a)
-        if a['op'] == 'adv':
-            h.advance_time_and_run(U * (1 + EPS))
-        elif a.get('sh') != skip:
-            do(a)
-            settle()
+        try:
+            if a['op'] == 'adv':
+                h.advance_time_and_run(U * (1 + EPS))
+            elif a.get('sh') != skip:
+                do(a)
+                settle()
+        except Exception as ex:  # pylint: disable=broad-except
+            import traceback
+            _H['dirty'] = True
+            lines.append({'op': 'crash', 'at': dict(a), 'what': repr(ex)[:300], 'tb': traceback.format_exc()[-1500:]})
+            return
         lines.append(obs(a))
 
     body = [a for a in sched if a['op'] != 'init']
@@ -527,6 +549,9 @@ def handmade():
         (15, [P(2), A, P(1), A, A, A, A]),
         (16, [A, P(1), A, A, A, A, A, A, A]),
         (17, [P(1), A, A, A, A, A]),
+        (21, [P(1), A, P(2), A, A, A, A, A, A, A]),
+        (18, [P(1), A, A, A, St(1), A, A, A]),
+        (19, [P(1), P(2), A, A, A, A, A, A]),
     ]
 
 
@@ -543,6 +568,30 @@ def handmade_odd():
         # one of two shows holding the coil ends
         (20, [P(1), P(2), A, A, A, A, A]),
     ]
+
+
+def reach(wd, cfg, traces, ids):
+    """One verbose TLC run over traces[ids]: {id: (accepted, last line reached)} (lib.tlc diagnoses only 8 per batch)."""
+    import re
+    if not ids:
+        return {}
+    path = tlc._write_batch(wd, traces, ids, 'diag.ndjson')     # pylint: disable=protected-access
+    r = tlc.check(wd, 'ShowsTrace', cfg, workers=8, timeout=900, env={'TRACE_FILE': path, 'VERBOSE': '1'})
+    if not r.ok:
+        raise tlc.TLCError('diagnosis run failed: %s\n%s' % (r.errors[:3], r.out[-2000:]))
+    mx = {}
+    for k, ln in re.findall(r'AT (\d+) (\d+)', r.out):
+        mx[int(k)] = max(mx.get(int(k), 0), int(ln))
+    acc = set(int(x) for x in re.findall(r'ACCEPT (\d+)', r.out))
+    return {i: (k in acc, mx.get(k, 0)) for k, i in enumerate(ids, 1)}
+
+
+def diagnose_all(wd, cfg, traces, v):
+    ids = [i for i, info in sorted(v.rejected.items()) if info.get('line') is None and info.get('reason') == 'unexplained']
+    for i, (_, ln) in reach(wd, cfg, traces, ids).items():
+        ev = traces[i].get('ev', [])
+        v.rejected[i].update({'line': ln, 'failing_event': ev[ln - 1] if 0 < ln <= len(ev) else None,
+                              'prev_event': ev[ln - 2] if 1 < ln <= len(ev) + 1 else None})
 
 
 FINDINGS = {
@@ -587,8 +636,16 @@ def run(ctx):
         f.write(trace_cfg())
     v = tlc.validate_traces(wd, 'ShowsTrace', 'Trace.cfg', traces, workers=8)
     ctx.add_trace_verdict('ShowsTrace', v, len(traces))
+    diagnose_all(wd, 'Trace.cfg', traces, v)
     ctx.coverage['configs_exercised'] = sorted({j[1] for j in jobs})
     ctx.coverage['lines'] = sum(len(t['ev']) for t in traces)
+    ops = {}
+    for t in traces:
+        for e in t['ev']:
+            ops[e['op']] = ops.get(e['op'], 0) + 1
+            if e['op'] == 'adv' and any(len(x['steps']) > 1 for x in e.get('S', [])):
+                ops['adv with a show catching up'] = ops.get('adv with a show catching up', 0) + 1
+    ctx.coverage['lines_by_request'] = ops
     ctx.sample({'kind': 'show-trace', 'cfg': traces[0]['cfg'], 'trace': traces[0]['ev'][:8]})
     # executions the statement does not explain: is it one of the code-as-is deviations?
     rej = sorted(i for i, info in v.rejected.items() if info.get('line') is not None)
@@ -597,10 +654,11 @@ def run(ctx):
     if coilrej:
         with open(wd + '/TraceDev.cfg', 'w') as f:
             f.write(trace_cfg(('CoilSharedDisable',), monitors=False))
-        v2 = tlc.validate_traces(wd, 'ShowsTrace', 'TraceDev.cfg', [traces[i] for i in coilrej], workers=8, diagnose=False)
-        ctx.add_trace_verdict('ShowsTrace(Deviations={CoilSharedDisable})', v2, 0)
-        for k in v2.accepted:
-            explained[coilrej[k]] = ('C17:coil-shared-disable', 'a show that ends disables a coil that another running show has '
+        # the deviation explains the line the statement could not
+        for i, (acc, ln) in reach(wd, 'TraceDev.cfg', traces, coilrej).items():
+            if not (acc or ln > v.rejected[i]['line']):
+                continue
+            explained[i] = ('C17:coil-shared-disable', 'a show that ends disables a coil that another running show has '
                                      'enabled too (coil_player contexts are not counted): the coil is not left as it would be '
                                      'had the show never run')
     for i in rej:
